@@ -1,4 +1,5 @@
 import PicoVerif.Model.Include
+import PicoVerif.Lemmas.C20
 /-! C20 — #include splices exactly the named file or cart tab at the include line.
 File reading and cart loading are parameters of the model (`FS`); the recogniser, tab selection and splice are proved. -/
 namespace Pico.C20
@@ -12,7 +13,7 @@ def splitTabs : List Bytes → List Bytes → List (List Bytes)
 /-- **C20.plain_lines_unchanged**: a line that is not an include line is yielded unchanged, with no file access. -/
 theorem plain_lines_unchanged (fs : FS) (root dir : P) (line : Bytes) (h : matchInclude line = none) :
     includeLine fs root dir line = (.ok [line], []) := by
-  sorry
+  simp [includeLine, h]
 
 /-- **C20.splice**: the loaded code is the cart's lines with each include line replaced, in place, by what that
 line alone yields; every other line is unchanged and in place. -/
@@ -20,35 +21,62 @@ theorem splice (fs : FS) (root dir : P) (lines out : List Bytes)
     (h : (processIncludes fs root dir lines).1 = .ok out) :
     ∃ parts : List (List Bytes), parts.length = lines.length ∧ out = parts.flatten ∧
       ∀ i (hi : i < lines.length), (includeLine fs root dir lines[i]).1 = .ok (parts.getD i []) := by
-  sorry
+  exact splice_aux fs root dir lines out h
 
 /-- **C20.tab_none**: without a selector every line of the included cart is kept, the `-->8` lines included. -/
 theorem tab_none (ls : List Bytes) (cur : Nat) : linesForTab none ls cur = ls := by
-  sorry
+  exact linesForTab_none ls cur
 
 /-- **C20.tab_some**: with selector `n` exactly the lines of the n-th editor tab are kept (none if there is no such tab). -/
 theorem tab_some (ls : List Bytes) (n : Nat) : linesForTab (some n) ls 0 = (splitTabs ls []).getD n [] := by
-  sorry
+  have hs : ∀ ls acc, splitTabs ls acc = splitTabs' ls acc := by
+    intro ls
+    induction ls with
+    | nil => intro acc; rfl
+    | cons l rest ih => intro acc; simp only [splitTabs, splitTabs', ih]
+  have := linesForTab_some_aux n ls 0 [] (Nat.zero_le _)
+  rw [hs]
+  by_cases hn : n = 0 <;> simpa [hn] using this
 
 /-- **C20.lines_stay_lines**: every line spliced in for an include line ends with a line feed, so the line of the
 including cart that follows stays a line of its own. -/
 theorem lines_stay_lines (fs : FS) (root dir : P) (line : Bytes) (m : IncMatch) (ls : List Bytes)
     (hm : matchInclude line = some m) (h : (includeLine fs root dir line).1 = .ok ls) :
     ∀ l ∈ ls, l.getLast? = some 10 := by
-  sorry
+  intro l hl
+  simp only [includeLine, hm] at h
+  split at h
+  · simp at h
+  · split at h
+    · simp at h
+    · split at h
+      · simp only [Except.ok.injEq] at h
+        subst h
+        obtain ⟨x, _, rfl⟩ := List.mem_map.1 hl
+        exact withNewline_last x
+      · split at h
+        · simp at h
+        · simp only [Except.ok.injEq] at h
+          subst h
+          obtain ⟨x, _, rfl⟩ := List.mem_map.1 hl
+          exact withNewline_last x
 
 /-- **C20.missing_fails**: an include line whose target is not a file fails the load. -/
 theorem missing_fails (fs : FS) (root dir : P) (line : Bytes) (m : IncMatch) (hm : matchInclude line = some m)
     (hf : fs.isFile (normpath (join dir (bytesToPath (m.path ++ m.ext)))) = false) :
     ∃ e, (includeLine fs root dir line).1 = .error e := by
-  sorry
+  simp only [includeLine, hm]
+  split
+  · exact ⟨_, rfl⟩
+  · exact ⟨.notFound, by simp [hf]⟩
 
 /-- **C20.error_propagates**: if any line fails, loading fails (nothing is silently skipped). -/
 theorem error_propagates (fs : FS) (root dir : P) (pre post : List Bytes) (line : Bytes) (e : Err)
     (hpre : ∃ o, (processIncludes fs root dir pre).1 = .ok o)
     (h : (includeLine fs root dir line).1 = .error e) :
     (processIncludes fs root dir (pre ++ line :: post)).1 = .error e := by
-  sorry
+  obtain ⟨o, ho⟩ := hpre
+  exact error_propagates_aux fs root dir pre post line e h o ho
 
 /-- **C20.no_nested**: what is spliced for a cart target is the cart's own code lines selected by tab — include lines
 inside it are not expanded (they are ordinary lines of `cartCode`). -/
@@ -58,7 +86,7 @@ theorem no_nested (fs : FS) (root dir : P) (line : Bytes) (m : IncMatch) (code :
     (hf : fs.isFile (normpath (join dir (bytesToPath (m.path ++ m.ext)))) = true)
     (hc : fs.cartCode (normpath (join dir (bytesToPath (m.path ++ m.ext)))) = .ok code) :
     (includeLine fs root dir line).1 = .ok ((linesForTab m.tab code 0).map withNewline) := by
-  sorry
+  simp only [includeLine, hm, hin, hf, Bool.not_true, Bool.false_eq_true, if_false, if_neg hext, hc]
 
 example : matchInclude "  #include lib/a.p8.png:2 -- x\n".toUTF8.toList =
     some { path := "lib/a".toUTF8.toList, ext := ".p8.png".toUTF8.toList, tab := some 2 } := by decide +kernel
